@@ -30,6 +30,7 @@ type c03Case struct {
 
 var c03Templates = []string{
 	"%e & 'x'", "'x' & %e", "%e & %e", "%spare & 'x'", "%one & 'x'", "%one & %e",
+	"%spare.where($this != 'b')", "%spare.where($this = 'a')", "%shared1.where($this = 's1')", "%names.where(use != 'official')", "%spare.exists($this = 'a')", "%spare.select($this.where($this = 'a'))", "%spare.exclude(%one)", "%spare.where($this != 'b').count() + %spare.count()", "%names.where(family.exists().not())",
 	"%spare.tail()", "%spare.skip(1)", "%spare.take(2)", "%spare.first()", "%spare.where($this.exists())", "%spare.select($this)", "%spare.distinct()", "%spare.exclude(%shared1)", "%spare.intersect(%shared2)",
 	"%shared1.exclude(%shared2)", "%shared1.where(true)", "%shared1 = %shared2", "%shared1.tail().tail()", "%shared1.select($this & 'y')", "%shared1.children()", "%names.descendants()", "%names.select(given)", "%names.where(use = 'official').given",
 	"%names.first().given.tail()", "%pat.name.given", "%pat.children().descendants()", "%pat.extension('http://example.org/a').value", "%pat.managingOrganization.reference", "%pat.contained", "%name.given & 'x'", "%names.exclude(%pat.name)", "%names.intersect(%pat.name)",
